@@ -198,6 +198,17 @@ def configs(tier):
     # every session of the client library
     for t in (core if q else tg):
         c.append(("%s,c0=x*%d,rel=99" % (t, 2 if q or t not in core else 3), 0, "asan"))
+    # a FULL session table: two concurrent sessions with every pair of requests (get-all / get / sensitive / unknown /
+    # unknown type / unterminated name, or none) in the two slots, a third client knocking; served through idle
+    # xcm_receive / xcm_accept calls whose value and errno are compared (passivity)
+    small = "scert=%s,ccert=%s" % (cert("small"), cert("small"))
+    full = ["tp=tcp,target=a,c0=r*1,c1=r*1,c2=r:a", "tp=tcp,target=srv,c0=r*1,c1=r*1", "tp=ux,target=b,big=0,c0=r*1,c1=r*1",
+            "tp=tls,target=srv,big=0,%s,c0=r*1,c1=r*1" % small, "tp=tls,target=a,big=0,%s,c0=r*1,c1=r*1" % small]
+    if not q:
+        full += ["tp=tls,target=b,big=0,%s,c0=r*1,c1=r*1,c2=r:g" % small, "tp=tcp,target=b,c0=r*1,c1=x*1,c2=r:a",
+                 "tp=ux,target=srv,big=0,c0=r*1,c1=r*1,c2=r:a", "tp=tcp,target=a,c0=r*1,c1=r*1,rel=3"]
+    for t in full:
+        c.append(("%s,alpha=agkutn%s" % (t, "" if "rel=" in t else ",rel=99"), 0, "asan"))
     # (ii) schedules: concurrent sessions x interleavings x EAGAIN answers
     s5 = "tp=tls,target=a,big=0,scert=%s,ccert=%s" % (cert("san5"), cert("small"))
     rsa = "tp=tls,target=srv,big=1,names=70,scert=%s,ccert=%s" % (cert("rsa"), cert("rsa"))
@@ -247,7 +258,7 @@ def run(chk, tier, jobs, deadline):
     chk.assumptions += ASSUME
     make_pki()
     q = tier == "quick"
-    dl = deadline or (110 if q else 1700)
+    dl = deadline or (420 if q else 1700)
     t_end = time.time() + dl
     run_root = os.path.join(build.BUILD, "run", "c14-%d" % os.getpid())
     os.makedirs(run_root, exist_ok=True)
@@ -314,5 +325,5 @@ def run(chk, tier, jobs, deadline):
                 configurations=len(per_cfg), per_configuration=per_cfg, samples=samples,
                 exhaustive=completed_all and not chk.deadline_hit,
                 in_process_answers_recorded=counters[0], pumps=counters[2], replies_checked=counters[3],
-                requests_sent=counters[4], session_alphabet=ALPHA, max_session_items=2 if q else 3,
+                requests_sent=counters[4], idle_application_calls_compared=counters[6], session_alphabet=ALPHA, max_session_items=2 if q else 3,
                 max_concurrent_sessions=3)
